@@ -145,7 +145,7 @@ def run(ctx):
             ts = grid(rng.randint(3, 6))
             custom.append({"id": i, "kind": "pwthermal", "temps": [hx(x) for x in ts], "cond": [hx(rng.uniform(0.01, 0.03)) for _ in ts],
                            "diffu": [hx(rng.uniform(1e4, 2e4)) for _ in ts],
-                           "T": [hx(x) for x in ts[1:-1] + [(a + b) / 2 for a, b in zip(ts[:-1], ts[1:])]]})
+                           "T": [hx(x) for x in ts[1:-1] + [(a + b) / 2 for a, b in zip(ts[:-1], ts[1:])] + [ts[0], ts[-1]]]})
     # every (thermal, deformation, damage) variant combination of every material through load_material
     byname = {}
     for sub, name, var in variants:
@@ -227,6 +227,9 @@ def run(ctx):
                         findings.append((c, "%s: derivative of the film coefficient for %s at %g K is %r, the table's slope is %r"
                                          % (label, what, T, uv(dgot), slope)))
         elif c["sub"] == "damage" and ev.get("kind") == "metallic":
+            if any(v != "inf" for pair in ev.get("tR0", []) for v in pair):
+                findings.append((c, "%s: rupture time at zero stress is %s, an unloaded point never ruptures (inf)"
+                                 % (label, sorted(set(v for pair in ev["tR0"] for v in pair if v != "inf"))[:2])))
             S = [float.fromhex(s) for s in c["stress"]]
             Ts = [float.fromhex(t) for t in c["T"]]
             for ti, pair in enumerate(ev["tR"]):
@@ -292,6 +295,20 @@ def run(ctx):
         elif r["eval"] != r["eval2"]:
             diff = [k for k in r["eval"] if r["eval"][k] != r["eval2"].get(k)]
             findings.append((spec, "custom %s model: evaluations differ after an XML round trip (%s)" % (spec["kind"], diff)))
+        elif spec["kind"] == "pwthermal":
+            # value = linear interpolation; derivative = slope of the segment that starts at or before the point
+            # (of the last segment at the last table point)
+            ts = [float.fromhex(x) for x in spec["temps"]]
+            for key, dkey, tab in (("cond", "dcond", [float.fromhex(x) for x in spec["cond"]]), ("diff", "ddiff", [float.fromhex(x) for x in spec["diffu"]])):
+                for Th, got, dgot in zip(spec["T"], r["eval"][key], r["eval"][dkey]):
+                    T = float.fromhex(Th)
+                    j = min(max(k for k in range(len(ts)) if ts[k] <= T), len(ts) - 2)
+                    slope = (tab[j + 1] - tab[j]) / (ts[j + 1] - ts[j])
+                    val = tab[j] + slope * (T - ts[j])
+                    if abs(uv(got) - val) > 1e-12 * abs(val):
+                        findings.append((spec, "custom piecewise thermal model: %s at %g is %r, the table gives %r" % (key, T, uv(got), val)))
+                    if abs(uv(dgot) - slope) > 1e-9 * (abs(slope) + 1e-300):
+                        findings.append((spec, "custom piecewise thermal model: derivative of %s at %g is %r, the slope of the table there is %r" % (key, T, uv(dgot), slope)))
     ctx.sample({"variants": variants[:6], "n_variants": len(variants)})
     if findings:
         c, msg = findings[0]
